@@ -284,9 +284,14 @@ def run_vvmul(ctx, p):
     qa, qb = np.asarray(p['a'], dtype=np.float64), np.asarray(p['b'], dtype=np.float64)
     sig = dict(api='vvmul', impl=p['impl'])
     prod = np.array(ref.qmul(qa, qb), dtype=np.float64)
-    if qa[0] < 0.1 or qb[0] < 0.1 or prod[0] < 1e-3:
-        ctx.ood('numeric')
+    if qa[0] < 0.1 or qb[0] < 0.1 or abs(prod[0]) < 1e-6:
+        ctx.ood('numeric')      # (a product with scalar part next to 0 has no well-conditioned 3-vector form)
         return
+    # the pair has non-negative scalar parts; the product need not: its 3-vector form is then the vector part of -(a b), the
+    # quaternion of the same rotation with non-negative scalar part
+    sgn = 1.0 if prod[0] > 0 else -1.0
+    prod = sgn * prod
+    sig['product_scalar'] = 'positive' if sgn > 0 else 'negative'
     try:
         va, vb = b.q2v(qa), b.q2v(qb)
         if p['impl'] == 'base':
